@@ -1,5 +1,6 @@
 import OdakProofs.Lemmas.Pyramid
 import OdakProofs.Lemmas.Foveation
+import OdakProofs.Lemmas.GenFoveation
 
 /-! # C18 – foveation plumbing: pyramid padding (index part; regenerated expressions `Odak.Gen.pyr*`) -/
 namespace Odak
@@ -210,5 +211,124 @@ example : 0 < lodOf (2 : ℝ) := by
   rw [lodOf_real]
   apply lt_max_of_lt_right
   exact div_pos (Real.log_pos (by norm_num)) (Real.log_pos (by norm_num))
+
+/-! # C18 over the definitions REGENERATED from the Python source (`Generated/FoveationGen.lean`)
+
+The statements below are about `Odak.Gen.*`, rewritten from `/repo` on every run; they follow from the tie theorems of
+`Lemmas/GenFoveation.lean` and the theorems above. -/
+
+/-- the regenerated level-of-detail maps (flat screen and equirectangular) are non-negative at every pixel -/
+theorem C18_gen_lod_nonneg (g0 g1 alpha width dist : ℝ) (h w : Nat) (q : Bool) (i j : Nat) :
+    0 ≤ poolingLodG g0 g1 h w alpha width dist q i j ∧ 0 ≤ equiPoolingLodG g0 g1 h w alpha q i j := by
+  rw [gen_poolingLodG_eq, gen_equiPoolingLodG_eq]
+  exact ⟨C18_lod_nonneg _, C18_lod_nonneg _⟩
+
+/-- the regenerated pooling-size maps are non-negative -/
+theorem C18_gen_pooling_nonneg (g0 g1 alpha width dist : ℝ) (h w : Nat) (q : Bool) (i j : Nat) (hw : 0 < width) :
+    0 ≤ poolingPixelsG g0 g1 h w alpha width dist q i j ∧ 0 ≤ equiPoolingPixelsG g0 g1 h w alpha q i j := by
+  rw [gen_poolingPixelsG_eq, gen_equiPoolingPixelsG_eq]
+  exact ⟨C18_pooling_nonneg _ _ _ _ _ _ _ _ hw, C18_equi_pooling_nonneg _ _ _ _ _⟩
+
+/-- at the pixel the user looks at (its screen point is the gaze point; viewing distance non-zero) the regenerated pooling size
+    is 0 and the regenerated level of detail is 0, the minimum over all pixels, gazes and parameters -/
+theorem C18_gen_lod_min_at_gaze (g0 g1 alpha width dist : ℝ) (h w : Nat) (q : Bool) (i j : Nat) (hd : dist ≠ 0)
+    (hg : gazePoint g0 g1 h w width dist = screenPoint h w width dist i j) :
+    poolingPixelsG g0 g1 h w alpha width dist q i j = 0 ∧ poolingLodG g0 g1 h w alpha width dist q i j = 0 ∧
+    ∀ (g0' g1' alpha' width' dist' : ℝ) (h' w' : Nat) (q' : Bool) (i' j' : Nat),
+      poolingLodG g0 g1 h w alpha width dist q i j ≤ poolingLodG g0' g1' h' w' alpha' width' dist' q' i' j' := by
+  have he := eccentricityAt_zero_at_gaze g0 g1 h w width dist i j hd hg
+  have hp : poolingPixelsG g0 g1 h w alpha width dist q i j = 0 := by
+    rw [gen_poolingPixelsG_eq, poolingPixelsAt, he]; exact C18_pooling_zero_at_gaze _ _ _ _ _ _ _
+  have hl : poolingLodG g0 g1 h w alpha width dist q i j = 0 := by
+    rw [gen_poolingLodG_eq, poolingLodAt, ← gen_poolingPixelsG_eq, hp]
+    exact C18_lod_zero_of_small 0 le_rfl (by norm_num)
+  exact ⟨hp, hl, fun g0' g1' alpha' width' dist' h' w' q' i' j' => by
+    rw [hl]; exact (C18_gen_lod_nonneg g0' g1' alpha' width' dist' h' w' q' i' j').1⟩
+
+/-- in particular for a gaze on a pixel centre, `gaze = (j / (w - 1), i / (h - 1))` (image corners included) -/
+theorem C18_gen_lod_zero_at_pixel_centre_gaze (alpha width dist : ℝ) (h w : Nat) (q : Bool) (i j : Nat) (hd : dist ≠ 0)
+    (hh : 2 ≤ h) (hw : 2 ≤ w) :
+    poolingLodG ((j : ℝ) / ((w - 1 : Nat) : ℝ)) ((i : ℝ) / ((h - 1 : Nat) : ℝ)) h w alpha width dist q i j = 0 :=
+  (C18_gen_lod_min_at_gaze _ _ alpha width dist h w q i j hd (gazePoint_pixel_centre h w width dist i j hh hw)).2.1
+
+/-- equirectangular images: at the pixel whose yaw / pitch are the gaze angles the regenerated level of detail is 0, the minimum -/
+theorem C18_gen_equi_lod_min_at_gaze (a0 a1 alpha : ℝ) (h w : Nat) (q : Bool) (i j : Nat)
+    (hy : equiYaw w j = a0) (hp : equiPitch h i = a1) :
+    equiPoolingLodG a0 a1 h w alpha q i j = 0 ∧
+    ∀ (a0' a1' alpha' : ℝ) (h' w' : Nat) (q' : Bool) (i' j' : Nat),
+      equiPoolingLodG a0 a1 h w alpha q i j ≤ equiPoolingLodG a0' a1' h' w' alpha' q' i' j' := by
+  have hl : equiPoolingLodG a0 a1 h w alpha q i j = 0 := by
+    rw [gen_equiPoolingLodG_eq, equiPoolingLodAt, equiPoolingPixelsAt, equiEccentricityAt_zero_at_gaze a0 a1 h w i j hy hp,
+      C18_equi_pooling_zero_at_gaze]
+    exact C18_lod_zero_of_small 0 le_rfl (by norm_num)
+  exact ⟨hl, fun a0' a1' alpha' h' w' q' i' j' => by
+    rw [hl]; exact (C18_gen_lod_nonneg a0' a1' alpha' 1 1 h' w' q' i' j').2⟩
+
+/-- the regenerated radial map takes its values in `[0, 1]` -/
+theorem C18_gen_radial_map_range (s0 s1 : Nat) (g0 g1 : ℝ) (i j : Nat) (hi : i < s0) (hj : j < s1) :
+    0 ≤ radialMapG s0 s1 g0 g1 i j ∧ radialMapG s0 s1 g0 g1 i j ≤ 1 := by
+  rw [gen_radialMapG_eq]; exact radialMap_range s0 s1 g0 g1 i j hi hj
+
+/-- regenerated `pad_image_for_pyramid` (test, pad call, argument order): both output sides are multiples of `2^n`, at least
+    the input sides, and every original pixel keeps its position (admissible reflection pad) -/
+theorem C18_gen_pyramid_pad_multiple_and_content_at_origin (H W n : Nat) (hH : 0 < H) (hW : 0 < W)
+    (hpadH : ceilMul H (2 ^ n) - H < H) (hpadW : ceilMul W (2 ^ n) - W < W) :
+    let D : Int := 2 ^ n
+    ((pyrPadG 0 H W D).1 = true ∧ D ∣ ((pyrPadG 0 H W D).2.len : Int) ∧ (H : Int) ≤ (pyrPadG 0 H W D).2.len ∧
+      ∀ i, i < H → (pyrPadG 0 H W D).2.src i = some i) ∧
+    ((pyrPadG 1 H W D).1 = true ∧ D ∣ ((pyrPadG 1 H W D).2.len : Int) ∧ (W : Int) ≤ (pyrPadG 1 H W D).2.len ∧
+      ∀ j, j < W → (pyrPadG 1 H W D).2.src j = some j) := by
+  intro D
+  obtain ⟨⟨a1, a2, a3⟩, ⟨b1, b2, b3⟩⟩ := C18_pyramid_pad_content_at_origin H W n hH hW hpadH hpadW
+  obtain ⟨⟨r1, r2, _⟩, ⟨s1, s2, _⟩⟩ := C18_pyramid_required_sizes H W n
+  rw [gen_pyrPadG_eq, gen_pyrPadG_eq]
+  exact ⟨⟨a1, by rw [a2]; exact r1, by rw [a2]; exact r2, a3⟩, ⟨b1, by rw [b2]; exact s1, by rw [b2]; exact s2, b3⟩⟩
+
+/-- regenerated early-return test: images whose sides are already multiples of `2^n` are returned as they are -/
+theorem C18_gen_pyramid_already_fits_unchanged (H W n : Nat) (hH : ((2 : Int) ^ n) ∣ (H : Int)) (hW : ((2 : Int) ^ n) ∣ (W : Int)) :
+    pyrNeedsPadG H W (2 ^ n) = false ∧ (pyrPadG 0 H W (2 ^ n)).2.IsId H ∧ (pyrPadG 1 H W (2 ^ n)).2.IsId W := by
+  have hn : pyrNeedsPadG H W (2 ^ n) = false := by
+    rw [gen_pyrNeedsPadG_eq]; exact C18_pyramid_already_fits_unchanged H W n hH hW
+  refine ⟨hn, ?_, ?_⟩ <;> simp [pyrPadG, hn, keepAxis, AxisMap.IsId]
+
+/-- the pad call is a reflection pad whose only non-zero widths are the missing rows after the last row and the missing columns
+    after the last column -/
+theorem C18_gen_pyramid_pad_call (H W D : Int) :
+    pyrPadModeG = PadMode.reflect ∧ pyrTopG H W D = 0 ∧ pyrLeftG H W D = 0 ∧
+    pyrBottomG H W D = ceilMul H D - H ∧ pyrRightG H W D = ceilMul W D - W :=
+  ⟨gen_pyrPadModeG_eq, (gen_pyrPadWidths_spec H W D).1, (gen_pyrPadWidths_spec H W D).2.2.1,
+    (gen_pyrPadWidths_spec H W D).2.1, (gen_pyrPadWidths_spec H W D).2.2.2⟩
+
+/-- the regenerated blur: with at least two mip levels, a pixel whose level of detail lies in level `l` gets the coarsest level
+    itself or a convex combination (`blend` with the regenerated fraction, which lies in `[0, 1)`) of levels `l` and `l + 1` -/
+theorem C18_gen_blur_pixel_is_average (levels l : Nat) (lod : ℝ) (mip : Nat → ℝ) (h2 : 2 ≤ levels) (hl : l < levels)
+    (h0 : (l : ℝ) ≤ lod) (h1 : l + 1 < levels → lod < (l : ℝ) + 1) :
+    blurPixelG levels lod (blurFractionG lod) mip =
+      (if l = levels - 1 then mip l else blend (blurFractionG lod) (mip l) (mip (l + 1))) ∧
+    (l + 1 < levels → blurFractionG lod = lod - l ∧ 0 ≤ blurFractionG lod ∧ blurFractionG lod < 1) := by
+  have hlod : 0 ≤ lod := le_trans (Nat.cast_nonneg l) h0
+  refine ⟨(gen_blurPixelG_eq levels l lod _ mip h2 hl h0 h1).1, fun hc => ?_⟩
+  have hfl : (⌊lod⌋ : ℤ) = (l : ℤ) := Int.floor_eq_iff.mpr ⟨by exact_mod_cast h0, by exact_mod_cast h1 hc⟩
+  have hf : blurFractionG lod = lod - l := by
+    rw [gen_blurFractionG_eq lod hlod, lodFraction, num_floor, hfl]; simp
+  rw [hf]
+  exact ⟨rfl, by linarith, by linarith [h1 hc]⟩
+
+/-- the gaze pixel is left unblurred by the regenerated blur: level of detail 0 selects mip level 0 with fraction 0, and mip
+    level 0 is the input image itself (`mipmap = [image]`) -/
+theorem C18_gen_blur_gaze_pixel_unblurred (levels : Nat) (mip : Nat → ℝ) (h2 : 2 ≤ levels) (fuel H W : Nat) :
+    blurPixelG levels 0 (blurFractionG 0) mip = mip 0 ∧ (mipSizesG fuel H W).head? = some (H, W) := by
+  refine ⟨?_, gen_mipSizesG_head fuel H W⟩
+  have h := (gen_blurPixelG_eq levels 0 0 (blurFractionG 0) mip h2 (by omega) (by simp) (fun _ => by simp)).1
+  rw [h, gen_blurFractionG_eq 0 le_rfl]
+  have hne : ¬ (0 = levels - 1) := by omega
+  simp [blurSelect, hne, blend, lodFraction]
+
+/-- non-vacuity: a 30 × 20 image, 3 levels - the regenerated pad adds 2 rows and 4 columns, nothing before -/
+example : pyrNeedsPadG 30 20 8 = true ∧ pyrBottomG 30 20 8 = 2 ∧ pyrRightG 30 20 8 = 4 ∧ pyrTopG 30 20 8 = 0 ∧ pyrLeftG 30 20 8 = 0 := by
+  decide
+
+/-- non-vacuity: the sizes of the mip chain of a 8 × 6 image: 8×6, 4×3, 2×1, then the final averaging step -/
+example : mipSizesG 10 8 6 = [(8, 6), (4, 3), (2, 1), (1, 3)] := by decide
 
 end Odak
